@@ -5,6 +5,7 @@ import sys
 import time
 
 VERIF = os.path.dirname(os.path.dirname(os.path.abspath(__file__)))
+OUT = os.environ.get("VERIF_OUT", VERIF)      # evidence/ and findings/ of self-test sub-runs go elsewhere
 sys.path.insert(0, os.path.join(VERIF, "lib"))
 
 import runfacts  # noqa: E402
@@ -93,8 +94,84 @@ class Check:
                         "at": o.ln, "failed_paths": o.failed, "paths": o.total, "samples": o.samples}, sample)
         return n
 
+    # ------------------------------------------------------------ checker self-test (thorough tier)
+    def selftest(self, max_silent=8, slots=4):
+        """run this property's check on scratch copies of /repo with (a) each seeded property-breaking change of this
+        property applied (must alarm) and (b) behaviour-preserving refactors touching the property's files applied
+        (must stay silent).  Results go to the evidence; they never change the exit code.  Copies live under the
+        system temp directory and are removed, with their build output, when done."""
+        import fnmatch
+        import glob
+        import re
+        import shutil
+        import subprocess
+        import tempfile
+        from concurrent.futures import ThreadPoolExecutor
+        if os.environ.get("VERIF_SELFTEST_CHILD"):
+            return
+        props = {}
+        for line in open(os.path.join(VERIF, "properties.jsonl")):
+            p = json.loads(line)
+            props[p["id"]] = p
+        files = props.get(self.pid, {}).get("anchors", {}).get("files", [])
+        jobs = []
+        for d in sorted(glob.glob(os.path.join(VERIF, "seeded", self.pid + "-*"))):
+            if os.path.isdir(d):
+                jobs.append(("seeded", os.path.basename(d), os.path.join(d, "patch.diff"), 1))
+        sil = []
+        for d in sorted(glob.glob(os.path.join(VERIF, "selftest", "silent", "S*.diff"))):
+            touched = re.findall(r"^\+\+\+ b/(\S+)", open(d).read(), re.M)
+            if any(fnmatch.fnmatch(t, f) for t in touched for f in files):
+                sil.append(("silent", os.path.basename(d)[:-5], d, 0))
+        jobs += sil[:max_silent]
+        base = os.path.join(tempfile.gettempdir(), "rl2tp-verif-selftest")
+        os.makedirs(base, exist_ok=True)
+        outdir = tempfile.mkdtemp(prefix="out-", dir=base)
+        results = {"seeded": {"run": 0, "as_expected": 0, "skipped": 0, "unexpected": []},
+                   "silent": {"run": 0, "as_expected": 0, "skipped": 0, "unexpected": []}}
+
+        def work(slot, myjobs):
+            wt = os.path.join(base, "slot%d" % slot)
+            for kind, name, patch, want in myjobs:
+                shutil.rmtree(wt, ignore_errors=True)
+                shutil.copytree(self.repo, wt, ignore=shutil.ignore_patterns(".git", "target"))
+                r = subprocess.run(["git", "apply", patch], cwd=wt, capture_output=True, text=True)
+                if r.returncode != 0:
+                    results[kind]["skipped"] += 1
+                    continue
+                env = dict(os.environ, L2TP_REPO=wt, VERIF_OUT=outdir, VERIF_SELFTEST_CHILD="1", VERIF_TIER="quick")
+                p = subprocess.run([os.path.join(VERIF, "check"), self.pid, "--tier", "quick"], cwd=VERIF, env=env, capture_output=True, text=True)
+                results[kind]["run"] += 1
+                if p.returncode == want:
+                    results[kind]["as_expected"] += 1
+                else:
+                    results[kind]["unexpected"].append({"case": name, "exit": p.returncode, "last": p.stdout.strip().splitlines()[-1:] })
+            shutil.rmtree(wt, ignore_errors=True)
+            tag = __import__("hashlib").sha256(wt.encode()).hexdigest()[:8]
+            for d in glob.glob(os.path.join(VERIF, ".cache", "*%s*" % tag)):
+                if os.path.isdir(d):
+                    shutil.rmtree(d, ignore_errors=True)
+                else:
+                    try:
+                        os.remove(d)
+                    except OSError:
+                        pass
+        parts = [jobs[i::slots] for i in range(slots)]
+        with ThreadPoolExecutor(max_workers=slots) as ex:
+            list(ex.map(lambda t: work(*t), [(i, parts[i]) for i in range(slots) if parts[i]]))
+        shutil.rmtree(outdir, ignore_errors=True)
+        self.extra["selftest"] = results
+        for kind in ("seeded", "silent"):
+            for u in results[kind]["unexpected"]:
+                print("SELFTEST-NOTE: %s case %s of %s gave exit %s (expected %s)" % (kind, u["case"], self.pid, u["exit"], 1 if kind == "seeded" else 0))
+
     # ------------------------------------------------------------ finish
     def finish(self, level, explanation=None, assumptions=None, exhaustive=None, rule=None):
+        if self.tier == "thorough":
+            try:
+                self.selftest()
+            except Exception as e:      # the self-test is an extra; it must never break the verdict
+                self.extra["selftest"] = {"error": repr(e)[:300]}
         known = {"known": [], "fixed": []}
         kp = os.path.join(VERIF, "known_findings.json")
         if os.path.exists(kp):
@@ -107,7 +184,7 @@ class Check:
                 print("KNOWN-FINDING: property=%s %s -- %s" % (self.pid, f["key"], k.get("what", f["summary"])))
             else:
                 new.append(f)
-        fdir = os.path.join(VERIF, "findings", self.pid)
+        fdir = os.path.join(OUT, "findings", self.pid)
         os.makedirs(fdir, exist_ok=True)
         for f in new:
             safe = "".join(c if c.isalnum() else "_" for c in f["key"])[:150]
@@ -145,8 +222,8 @@ class Check:
             "violations": len(new),
             "known_findings": [f["key"] for f in self.findings if (self.pid, f["key"]) in known_keys],
         }
-        os.makedirs(os.path.join(VERIF, "evidence"), exist_ok=True)
-        with open(os.path.join(VERIF, "evidence", self.pid + ".json"), "w") as fh:
+        os.makedirs(os.path.join(OUT, "evidence"), exist_ok=True)
+        with open(os.path.join(OUT, "evidence", self.pid + ".json"), "w") as fh:
             json.dump(ev, fh, indent=1, default=str)
         print("%s %s: %d obligations, %d discharged, %d violation(s), %d known, %.1fs" % (
             self.pid, self.tier, self.obligations, self.discharged, len(new),
